@@ -195,6 +195,7 @@ static int gs_out_acc_id;               /* def id of the last accepted definitio
 static struct uref *gs_out_acc_ptr;     /* the definition uref last accepted (identity), NULL if none/rejected */
 static int gs_out_inputs;               /* buffers received */
 static struct uref *gs_out_last_input;
+static struct uref gs_out_last_copy;     /* the last buffer as it arrived (scalar fields and pointers), taken before the stub frees it */
 static int gs_out_input_unaccepted;     /* buffers received while no definition was accepted */
 static int gs_out_last_input_def;       /* accepted def id at the time of the last input */
 static int gs_out_reg, gs_out_unreg;    /* register / unregister request commands */
@@ -207,7 +208,7 @@ static void stub_out_input(struct upipe *upipe, struct uref *uref, struct upump 
 {
     if (gs_ev_dead > 0) gs_out_after_dead++;
     if (gs_out_inputs < 1000000) gs_out_inputs++;
-    gs_out_last_input = uref;
+    gs_out_last_input = uref; gs_out_last_copy = *uref;
     gs_out_last_input_def = gs_out_acc_id;
     if (gs_out_acc_ptr == NULL && gs_out_input_unaccepted < 1000) gs_out_input_unaccepted++;
     if (gs_flow_def_field != NULL) {
